@@ -107,6 +107,9 @@ pub struct Case {
     /// sources are `DltMessageIterator`s over in-memory byte buffers instead of Vec iterators
     pub reader: bool,
     pub buckets: Vec<Vec<Vec<u8>>>,
+    /// size_hint flavour of the (Vec-backed, not nested) source of bucket b: 0 exact, 1 (0, Some(n)), 2 (0, None),
+    /// 3 (n, None), 4 (0, Some(n + 3)); empty = all exact
+    pub hints: Vec<u8>,
 }
 impl Case {
     fn json(&self) -> Value {
@@ -116,7 +119,7 @@ impl Case {
             json!(self.buckets.iter().map(|b| b[0].clone()).collect::<Vec<_>>())
         };
         json!({"family": self.family, "api": self.api.name(), "start": self.start.json(), "nest": self.nest,
-            "reader": self.reader, "sources_reception_s": sources})
+            "reader": self.reader, "sources_reception_s": sources, "source_hints": self.hints})
     }
     fn parse(v: &Value) -> Option<Case> {
         let nest = v["nest"].as_bool().unwrap_or(false);
@@ -136,6 +139,7 @@ impl Case {
             nest,
             reader: v["reader"].as_bool().unwrap_or(false),
             buckets,
+            hints: v["source_hints"].as_array().map(|a| a.iter().map(|h| h.as_u64().unwrap_or(0) as u8).collect()).unwrap_or_default(),
         })
     }
     fn total(&self) -> usize {
@@ -231,7 +235,15 @@ fn make_source(case: &Case, b: usize, s: usize) -> Src {
         }
         Box::new(DltMessageIterator::new(own_index(b, s, 0), std::io::Cursor::new(bytes)))
     } else {
-        Box::new(source_msgs(case, b, s).into_iter())
+        let v = source_msgs(case, b, s);
+        let n = v.len();
+        match case.hints.get(b).copied().unwrap_or(0) {
+            0 => Box::new(v.into_iter()),
+            1 => Box::new(Hinted { inner: v.into_iter(), hint: (0, Some(n)) }),
+            2 => Box::new(Hinted { inner: v.into_iter(), hint: (0, None) }),
+            3 => Box::new(Hinted { inner: v.into_iter(), hint: (n, None) }),
+            _ => Box::new(Hinted { inner: v.into_iter(), hint: (0, Some(n + 3)) }),
+        }
     }
 }
 
@@ -646,6 +658,7 @@ impl C09 {
                                 nest: false,
                                 reader,
                                 buckets: ix.iter().map(|i| vec![cfgs[*i].clone()]).collect(),
+                                hints: vec![],
                             };
                             run_case(ctx, &case);
                         }
@@ -667,7 +680,7 @@ impl Prop for C09 {
         Meta {
             id: "C09",
             level: "exploration",
-            rule: "every family of k sources x n messages per source x every tuple of reception times (equal, increasing, unordered; plus a family over the corners of the u64 time range 0, 1, 2^63-1, 2^63, 2^63+1, 2^64-2, 2^64-1) x start index x constructor variant is run on the real SortingMultiReaderIterator / SequentialMultiIterator (new and new_or_single_it; Vec-backed and DltMessageIterator-backed sources; merge of chains as built by `adlt convert`); list-model oracle: multiset equality, unchanged content, per-source order, indices consecutive from the start index, reception-time order when every source is ordered, chain = concatenation; exactly one source through new_or_single_it is held to the documented pass-through. Long chains of empty sources run in a subprocess with an 8 MiB stack; death by signal is a violation. A case is non-trivial when it has >= 2 sources and >= 2 messages.".into(),
+            rule: "every family of k sources x n messages per source x every tuple of reception times (equal, increasing, unordered; plus a family over the corners of the u64 time range 0, 1, 2^63-1, 2^63, 2^63+1, 2^64-2, 2^64-1) x start index x constructor variant is run on the real SortingMultiReaderIterator / SequentialMultiIterator (new and new_or_single_it; Vec-backed (with exact and with every legal inexact size_hint flavour per source) and DltMessageIterator-backed sources; merge of chains as built by `adlt convert`); list-model oracle: multiset equality, unchanged content, per-source order, indices consecutive from the start index, reception-time order when every source is ordered, chain = concatenation; exactly one source through new_or_single_it is held to the documented pass-through. Long chains of empty sources run in a subprocess with an 8 MiB stack; death by signal is a violation. A case is non-trivial when it has >= 2 sources and >= 2 messages.".into(),
             assumptions: vec![
                 "bounds as listed under coverage.families; start indices 0, 1000 and the largest start for which the numbering fits u32 (numbering that would wrap the index type is not explored)".into(),
                 "sources are finite and fused (return None forever after their end)".into(),
@@ -686,6 +699,7 @@ impl Prop for C09 {
                 "merge_of_chains",
                 "subprocess_chain_ran",
                 "time_corners",
+                "inexact_source_hint",
             ],
         }
     }
@@ -725,7 +739,7 @@ impl Prop for C09 {
                         for api in &merge {
                             if ctx.mine() {
                                 ctx.landmark("time_corners");
-                                let case = Case { family: "merge_time_corners".into(), api: *api, start: *st, nest: false, reader: false, buckets: ix.iter().map(|i| vec![cfgs[*i].clone()]).collect() };
+                                let case = Case { family: "merge_time_corners".into(), api: *api, start: *st, nest: false, reader: false, buckets: ix.iter().map(|i| vec![cfgs[*i].clone()]).collect(), hints: vec![] };
                                 run_case(ctx, &case);
                             }
                         }
@@ -741,6 +755,41 @@ impl Prop for C09 {
         // (2) sources = real DltMessageIterator over in-memory storage-framed bytes
         if !self.flat_family(ctx, "reader_sources", 3, 2, 3, &all, &starts[..2], true) {
             return;
+        }
+        // (2b) sources whose size_hint is legal but inexact: every assignment of 5 hint flavours to <= 3 sources of 0..2 messages
+        {
+            let lens: [Vec<u8>; 3] = [vec![], vec![1], vec![1, 2]];
+            for k in 1..=3usize {
+                ctx.begin_family("source_hints", &format!("sources={k} msgs/source in {{0,1,2}} x size_hint flavour per source in {{exact, (0,Some(n)), (0,None), (n,None), (0,Some(n+3))}} starts=2 apis={}", all.len()));
+                let mut dims = vec![3usize; k];
+                dims.extend(vec![5usize; k]);
+                let done = enumr::product(&dims, |ix| {
+                    for st in &starts[..2] {
+                        for api in &all {
+                            if ctx.mine() {
+                                let case = Case {
+                                    family: "source_hints".into(),
+                                    api: *api,
+                                    start: *st,
+                                    nest: false,
+                                    reader: false,
+                                    buckets: ix[..k].iter().map(|i| vec![lens[*i].clone()]).collect(),
+                                    hints: ix[k..].iter().map(|h| *h as u8).collect(),
+                                };
+                                if case.hints.iter().any(|h| *h != 0) {
+                                    ctx.landmark("inexact_source_hint");
+                                }
+                                run_case(ctx, &case);
+                            }
+                        }
+                    }
+                    !(ctx.sum.evaluations % 2048 == 0 && ctx.out_of_time())
+                });
+                ctx.end_family(done);
+                if !done {
+                    return;
+                }
+            }
         }
         // (3) chain: every placement of empty sources among <= kmax sources
         {
@@ -762,6 +811,7 @@ impl Prop for C09 {
                                         .enumerate()
                                         .map(|(b, l)| vec![(0..*l).map(|p| ((b + p) % 3) as u8 + 1).collect()])
                                         .collect(),
+                                    hints: vec![],
                                 };
                                 run_case(ctx, &case);
                             }
@@ -799,6 +849,7 @@ impl Prop for C09 {
                                     nest: true,
                                     reader: false,
                                     buckets: ix.iter().map(|i| bucket_cfgs[*i].clone()).collect(),
+                                    hints: vec![],
                                 };
                                 run_case(ctx, &case);
                             }
